@@ -17,7 +17,7 @@ From FB.Gen Require Import JsonUtilGen.
 From FB.Spec Require Import JsonSpec.
 From FB.Spec Require Import Prog.
 From FB.Model Require Import Types Monad BuildDirs SimpleOps Builder Persist Build Run Frame.
-From FB.Proofs Require Import BuildFileLaws FrameLaws RollbackLaws CommitDirsMain.
+From FB.Proofs Require Import BuildFileLaws FrameLaws RollbackLaws CommitDirsMain CommitDirs2File CommitDirs2FileMain.
 (* T1g: Model/BuildDirs.v and Model/CreatedFiles.v are equal to the translation of build_dirs.py / created_files.py
    (Gen/BookGen.v, regenerated on every run); a change of those sources that the model does not follow breaks this import *)
 From FB.Proofs Require BookGenLaws.
@@ -34,6 +34,21 @@ Theorem C10_state_after_a_committed_build : forall cf nm vers svers root w w' v 
   run_build cf nm vers root w = (w', Done (inl v)) ->
   CommitPost (w_fs w) (old_cache_of (w_fs w) cf nm svers) cf w'.
 Proof. exact commit_leaves. Qed.
+
+(* every output built by a committed build is a regular file whose recorded comparison result is that of
+   the file on disk (any previous cache) *)
+Theorem C10_built_files_are_what_was_recorded : forall cf nm vers svers root w w' v (P : path -> Prop),
+  w_faults w = [] ->
+  sanitize vers = Some svers ->
+  AllTargets P root ->
+  fs_wf (w_fs w) ->
+  (forall a t, (P t \/ t = cf \/ In t (cache_targets (old_cache_of (w_fs w) cf nm svers))) ->
+     below a t = true -> (forall f, lookup (w_fs w) a <> Some (NFile f)) /\ ~ P a) ->
+  (forall d, In d (c_dirs (old_cache_of (w_fs w) cf nm svers)) -> path_ok d = true) ->
+  run_build cf nm vers root w = (w', Done (inl v)) ->
+  forall p o, cache_get_file (w_new w') p = Some o -> In p (c_built (w_new w')) -> op_raised o = false ->
+    exists g, lookup (w_fs w') p = Some (NFile g) /\ CmpOK o g.
+Proof. exact built_files_recorded. Qed.
 
 Theorem C10_parents_of_failed_targets_removed_when_empty : forall fs0 old cf w',
   CommitPost fs0 old cf w' ->
